@@ -134,8 +134,9 @@ func c16isDirectorFn(f *ssa.Function) bool {
 
 // ---- regions --------------------------------------------------------------------------------------------------------
 
-// c16syncRegion: f, the closures it runs itself, and the repository functions it calls synchronously (call or defer,
-// never `go`), depth-bounded. Unlike Ctx.region it does not follow goroutines or function values merely taken.
+// c16syncRegion: f, the closures it runs itself, the repository functions it calls synchronously (call or defer,
+// never `go`) and the function values it hands to callees that run them (c16syncCallees), depth-bounded. Unlike
+// Ctx.region it does not follow goroutines or function values merely taken.
 func c16syncRegion(f *ssa.Function) []*ssa.Function {
 	var out []*ssa.Function
 	seen := map[*ssa.Function]bool{}
@@ -147,13 +148,8 @@ func c16syncRegion(f *ssa.Function) []*ssa.Function {
 		seen[g] = true
 		out = append(out, g)
 		eachInstr(g, func(i ssa.Instruction) {
-			if _, isGo := i.(*ssa.Go); isGo {
-				return
-			}
-			if cc := callCommon(i); cc != nil {
-				if sc := cc.StaticCallee(); sc != nil {
-					add(unwrap(sc), d+1)
-				}
+			for _, h := range c16syncCallees(i) {
+				add(h, d+1)
 			}
 		})
 	}
@@ -175,20 +171,19 @@ func c16reaches(f, g *ssa.Function) bool {
 	return f != nil && g != nil && c16inFns(c16syncRegion(f), g)
 }
 
-// c16mayDo: i satisfies pred, or is a synchronous static call of a repository function that may.
+// c16mayDo: i satisfies pred, or synchronously runs a repository function (callee or callback) that may.
 func c16mayDo(i ssa.Instruction, pred func(ssa.Instruction) bool) bool {
 	if pred(i) {
 		return true
 	}
-	if _, isGo := i.(*ssa.Go); isGo {
-		return false
+	for _, g := range c16syncCallees(i) {
+		for _, h := range c16syncRegion(g) {
+			if fnHas(h, pred) {
+				return true
+			}
+		}
 	}
-	cc := callCommon(i)
-	if cc == nil {
-		return false
-	}
-	sc := cc.StaticCallee()
-	return sc != nil && isRepoFn(sc) && mayExec(unwrap(sc), pred, 1)
+	return false
 }
 
 // ---- the interceptor and the director ----------------------------------------------------------------------------------
@@ -226,7 +221,7 @@ func c16resolve(c *Ctx) *c16roles {
 			return false
 		}
 		lk, h := false, false
-		eachInstrOf(c.region(f), func(_ *ssa.Function, i ssa.Instruction) {
+		eachInstrOf(c16region(f), func(_ *ssa.Function, i ssa.Instruction) {
 			if callsLookup(i) {
 				lk = true
 			}
@@ -239,11 +234,31 @@ func c16resolve(c *Ctx) *c16roles {
 	// the exported method is stable enough to name; a renamed / re-homed interceptor is found by what it does
 	if f := c.method("proxy", "GrpcProxyInterceptor", "Stream"); f != nil && role(f) {
 		r.stream = f
+	} else if f := c.fnByRole("proxy", "", role); f != nil {
+		r.stream = f
 	} else {
-		r.stream = c.fnByRole("proxy", "", role)
+		// moved out of package proxy: any package of the repository that imports gRPC
+		var cands []*ssa.Function
+		for _, f := range c.AllFns {
+			if isRepoFn(f) && c16grpcPkg(rootPkg(f)) && rootPkg(f).Pkg.Name() != "main" && role(f) {
+				cands = append(cands, f)
+			}
+		}
+		for _, f := range cands {
+			outer := true
+			for _, g := range cands {
+				if g != f && !c16inFns(c16region(f), g) {
+					outer = false
+				}
+			}
+			if outer {
+				r.stream = f
+				break
+			}
+		}
 	}
 	if r.stream != nil {
-		r.sreg = c.region(r.stream)
+		r.sreg = c16region(r.stream)
 		eachInstrOf(r.sreg, func(_ *ssa.Function, i ssa.Instruction) {
 			if callsLookup(i) {
 				r.lookups = append(r.lookups, i.(*ssa.Call))
@@ -254,6 +269,11 @@ func c16resolve(c *Ctx) *c16roles {
 		})
 	}
 	r.directors = c.fnsWhere("proxy", c16isDirectorFn)
+	if len(r.directors) == 0 {
+		r.directors = c.fnsWhere("", func(f *ssa.Function) bool {
+			return isRepoFn(f) && c16grpcPkg(rootPkg(f)) && rootPkg(f).Pkg.Name() != "main" && c16isDirectorFn(f)
+		})
+	}
 	return r
 }
 
@@ -267,7 +287,7 @@ func (r *c16roles) isTarget(v ssa.Value) bool {
 		return b
 	}
 	r.tgtMemo[v] = false
-	b := derives(v, func(x ssa.Value) bool {
+	b := c16derivesF(v, func(x ssa.Value) bool {
 		call, ok := x.(*ssa.Call)
 		return ok && call.Call.StaticCallee() == r.tableLookup
 	})
@@ -313,7 +333,7 @@ func (r *c16roles) isLookupErr(v ssa.Value) bool {
 			helper = true
 		}
 	})
-	b := derives(v, func(x ssa.Value) bool {
+	b := c16derivesF(v, func(x ssa.Value) bool {
 		var call *ssa.Call
 		switch y := x.(type) {
 		case *ssa.Extract:
@@ -377,6 +397,19 @@ func c16statusCodes(v ssa.Value) []int64 {
 			derives(call.Call.Args[0], visit)
 		}
 		return false
+	}
+	inner := visit
+	seenG := map[*ssa.Global]bool{}
+	visit = func(x ssa.Value) bool {
+		// a status kept in a package-level variable (var errNoRoute = status.Error(codes.NotFound, ...))
+		if g, ok := x.(*ssa.Global); ok && !seenG[g] {
+			seenG[g] = true
+			for _, st := range gGlobalStores[g] {
+				derives(st.Val, visit)
+			}
+			return false
+		}
+		return inner(x)
 	}
 	derives(v, visit)
 	return out
@@ -606,7 +639,7 @@ func c16onlyStatic(fn *ssa.Function) bool {
 		return false
 	}
 	if fn.Parent() == nil || len(fn.FreeVars) == 0 {
-		return onlyStaticallyCalled(fn)
+		return onlyStaticallyCalled(fn) || c16wholeRepoStatic(fn)
 	}
 	ok, n := true, 0
 	eachInstr(fn.Parent(), func(i ssa.Instruction) {
@@ -787,4 +820,54 @@ func c16dynSites(fn *ssa.Function) (sites []ssa.CallInstruction, ok bool) {
 		}
 	})
 	return sites, ok && n > 0
+}
+
+var c16ifaceIndex struct {
+	c *Ctx
+	m map[string]map[string]bool // concrete type -> names of the methods of the interfaces it is converted to
+}
+
+// c16wholeRepoStatic: fabio is an application — every caller of a function is in the repository. A function or method
+// whose value is never taken, and whose receiver type is never converted to an interface that has a method of this name,
+// is called only at its static call sites, exported or not (the shared onlyStaticallyCalled gives up on every exported
+// name and on every method whose NAME is invoked through some interface somewhere).
+func c16wholeRepoStatic(fn *ssa.Function) bool {
+	c := c16cache.c
+	if c == nil || fn == nil || fn.Parent() != nil || gAddrTaken[fn] || len(gSites[fn]) == 0 {
+		return false
+	}
+	if n := fn.Name(); n == "init" || n == "main" {
+		return false
+	}
+	recv := fn.Signature.Recv()
+	if recv == nil {
+		return true
+	}
+	if c16ifaceIndex.c != c {
+		c16ifaceIndex.c, c16ifaceIndex.m = c, map[string]map[string]bool{}
+		for _, f := range c.AllFns {
+			eachInstr(f, func(i ssa.Instruction) {
+				mi, ok := i.(*ssa.MakeInterface)
+				if !ok {
+					return
+				}
+				it, ok := mi.Type().Underlying().(*types.Interface)
+				if !ok {
+					return
+				}
+				k := typeStr(deref(mi.X.Type()))
+				if c16ifaceIndex.m[k] == nil {
+					c16ifaceIndex.m[k] = map[string]bool{}
+				}
+				if it.NumMethods() == 0 {
+					c16ifaceIndex.m[k]["*"] = true // boxed as any: a later type assertion may recover any interface
+				}
+				for j := 0; j < it.NumMethods(); j++ {
+					c16ifaceIndex.m[k][it.Method(j).Name()] = true
+				}
+			})
+		}
+	}
+	names := c16ifaceIndex.m[typeStr(deref(recv.Type()))]
+	return !names[fn.Name()] && !names["*"]
 }
